@@ -113,6 +113,12 @@ func (g *ranger) value(v ssa.Value) irange {
 
 func (g *ranger) valueUncached(v ssa.Value) irange {
 	var r irange
+	// the counter of a loop that scans a Writer slice names an existing element of that slice
+	if f := g.scanPosition(v); f != "" {
+		r.nonNeg = true
+		r.pos = map[string]bool{f: true}
+		return r
+	}
 	switch x := v.(type) {
 	case *ssa.Const:
 		if c, ok := ssau.ConstInt(x); ok {
@@ -590,4 +596,61 @@ func (g *ranger) writerSliceOfLen(call *ssa.Call) string {
 		return f.Name()
 	}
 	return ""
+}
+
+// scanPosition: v is the iteration number of a loop whose header keeps it below len(w.X)
+// (`for i := range w.X`, `for i := 0; i < len(w.X); i++`): inside the loop it is a valid position in
+// w.X. Returns X's name or "".
+func (g *ranger) scanPosition(v ssa.Value) string {
+	var phi *ssa.Phi
+	offset := int64(0)
+	switch x := v.(type) {
+	case *ssa.Phi:
+		phi = x
+	case *ssa.BinOp:
+		if p, ok := x.X.(*ssa.Phi); ok && x.Op == token.ADD {
+			if c, ok := ssau.ConstInt(x.Y); ok {
+				phi, offset = p, c
+			}
+		}
+	}
+	if phi == nil {
+		return ""
+	}
+	initOK, stepOK := false, false
+	for _, e := range phi.Edges {
+		if c, ok := ssau.ConstInt(e); ok {
+			if c+offset == 0 {
+				initOK = true
+			} else {
+				return ""
+			}
+			continue
+		}
+		bo, ok := e.(*ssa.BinOp)
+		if !ok || bo.Op != token.ADD || bo.X != ssa.Value(phi) {
+			return ""
+		}
+		if c, ok := ssau.ConstInt(bo.Y); !ok || c != 1 {
+			return ""
+		}
+		stepOK = true
+	}
+	if !initOK || !stepOK {
+		return ""
+	}
+	ifi, ok := phi.Block().Instrs[len(phi.Block().Instrs)-1].(*ssa.If)
+	if !ok {
+		return ""
+	}
+	bo, ok := ifi.Cond.(*ssa.BinOp)
+	if !ok || bo.Op != token.LSS || bo.X != v {
+		return ""
+	}
+	// only inside the loop (true branch) is the bound known to hold; v is used there or on a break out of it
+	lc, ok := bo.Y.(*ssa.Call)
+	if !ok || ssau.Builtin(lc) != "len" {
+		return ""
+	}
+	return g.writerSliceOfLen(lc)
 }
